@@ -15,12 +15,17 @@
 //
 // Compiled WITHOUT sanitizer instrumentation (like sched.cpp): nothing in here may create an edge by itself.
 #include <errno.h>
+#include <linux/futex.h>
 #include <pthread.h>
+#include <stdarg.h>
 #include <stdint.h>
+#include <sys/syscall.h>
 
 extern "C" {
 int sch_self(void);                   // simulated thread id of the caller, -1 if not simulated
 void sch_blocked(int tid, int what);  // yield, marking the caller as blocked (demoted under PCT)
+int sch_over_budget(void);
+long __real_syscall(long number, ...);
 void __tsan_acquire(void*) __attribute__((weak));
 void __tsan_release(void*) __attribute__((weak));
 int __real_pthread_once(pthread_once_t*, void (*)(void));
@@ -31,10 +36,11 @@ void __real___cxa_guard_release(uint32_t*);
 void __real___cxa_guard_abort(uint32_t*);
 // counters read by the engine (evidence: were the emulations ever exercised?)
 volatile uint32_t sim_block_once_calls = 0, sim_block_guard_calls = 0, sim_block_mutex_calls = 0, sim_block_waits = 0;
+volatile uint32_t sim_block_futex_waits = 0, sim_block_futex_wakes = 0, sim_block_futex_lost = 0;
 }
 
 namespace {
-enum { kOnce = 1, kGuard = 2, kMutex = 3 };
+enum { kOnce = 1, kGuard = 2, kMutex = 3, kFutex = 4 };
 void once_noop() {}
 // The value a completed pthread_once leaves in its control word differs between implementations (glibc: 2; the
 // ThreadSanitizer interceptor keeps its own state machine in the same word: 1). The emulation must leave behind
@@ -123,4 +129,64 @@ extern "C" int __wrap_pthread_mutex_lock(pthread_mutex_t* m) {
     sim_block_waits = sim_block_waits + 1;
     sch_blocked(tid, kMutex);
   }
+}
+
+// ---- futex (std::atomic<T>::wait / notify_* of libstdc++ end in syscall(SYS_futex, ...)) --------------------------
+// FUTEX_WAIT by a simulated thread: the kernel semantics are kept (EAGAIN when the word already differs; otherwise the
+// thread is blocked until a FUTEX_WAKE on the same address picks it), but "blocked" means "yields as blocked".  A waiter
+// nobody ever wakes therefore keeps the run from finishing: once the step budget is exhausted it is released with a
+// spurious wake-up (counter futex_lost_wakeups) and the run is reported as a liveness violation by the engine.
+// Only one simulated thread runs at a time, so the waiter table needs no lock.
+namespace {
+struct Waiter {
+  const void* addr;
+  int tid;
+  bool woken;
+  bool used;
+};
+Waiter g_waiters[16];
+}  // namespace
+
+extern "C" long __wrap_syscall(long number, long a1, long a2, long a3, long a4, long a5, long a6) {
+  int tid = number == SYS_futex ? sch_self() : -1;
+  if (tid < 0) return __real_syscall(number, a1, a2, a3, a4, a5, a6);
+  const void* addr = reinterpret_cast<const void*>(a1);
+  const int op = int(a2) & FUTEX_CMD_MASK;
+  if (op == FUTEX_WAIT || op == FUTEX_WAIT_BITSET) {
+    sim_block_futex_waits = sim_block_futex_waits + 1;
+    if (__atomic_load_n(reinterpret_cast<const volatile int*>(addr), __ATOMIC_SEQ_CST) != int(a3)) {
+      errno = EAGAIN;
+      return -1;
+    }
+    Waiter* w = nullptr;
+    for (auto& x : g_waiters)
+      if (!x.used) {
+        w = &x;
+        break;
+      }
+    if (!w) return 0;  // table full: behave like a spurious wake-up
+    *w = Waiter{addr, tid, false, true};
+    for (;;) {
+      sim_block_waits = sim_block_waits + 1;
+      sch_blocked(tid, kFutex);
+      if (w->woken) break;
+      if (sch_over_budget()) {  // nobody woke this waiter: let the run end, the engine reports it
+        sim_block_futex_lost = sim_block_futex_lost + 1;
+        break;
+      }
+    }
+    w->used = false;
+    return 0;
+  }
+  if (op == FUTEX_WAKE || op == FUTEX_WAKE_BITSET) {
+    sim_block_futex_wakes = sim_block_futex_wakes + 1;
+    long n = 0;
+    for (auto& x : g_waiters)
+      if (x.used && !x.woken && x.addr == addr && n < a3) {
+        x.woken = true;
+        n++;
+      }
+    return n;
+  }
+  return __real_syscall(number, a1, a2, a3, a4, a5, a6);
 }
